@@ -53,23 +53,23 @@ Proof. exact BInv_init. Qed.
 Print Assumptions C13_init_good.
 
 (* ---- manifests saved during or after the activity ---- *)
-From AV Require Import model.CFS_tload proofs.CFS_rt_defs proofs.CFS_line_proofs proofs.CFS_ents_inv proofs.CFS_roundtrip proofs.CFS_flush_proofs.
+From AV Require Import model.CFS_tload proofs.CFS_rt_defs proofs.CFS_line_proofs proofs.CFS_ents_inv proofs.CFS_roundtrip proofs.CFS_flush_proofs proofs.CFS_depth_inv.
 
 (* Every manifest that a save returns at ANY point of ANY interleaved history loads cleanly, and the
    loaded tree is exactly the tree of the plain byte-array filesystem after the foreground operations
    issued so far (in their order in the history, i.e. each file holds a content it actually passed
    through: the one at the save's linearisation point) - whatever background writes were in flight,
    completed, failed or reordered before the save.  Side conditions as in C09 (locator table hygiene,
-   store covered by the table, recursion bound), each evaluated on every save of every case. *)
+   store covered by the table), each evaluated on every save of every case. *)
 Theorem C13_save_during_activity_round_trips : forall mb, 1 <= mb -> forall tab es st1 txt,
   let st := bfinal mb tab (binit mb tab (fs_init (Conc mb))) es in
   b_marshal mb tab st = (st1, Ok txt) ->
   tab_ok_b tab = true -> in_tab_b tab (blocks mb st1) = true ->
-  deep_ok mb (List.length (inodes (Conc mb) (fsys mb st))) (fsys mb st) root_id = true ->
   exists t, t_load tab txt = Some t /\
             listing_T "." t = tree_listing Spec (fun b => b) (fg_final Spec (fs_init Spec) (fg_ops es)).
 Proof.
-  intros mb Hmb tab es st1 txt st Em Ht Hi Hd.
+  intros mb Hmb tab es st1 txt st Em Ht Hi.
+  pose proof (bg_history_deep_ok mb Hmb tab es) as Hd. cbv zeta in Hd. fold st in Hd.
   assert (HB0 : BInv mb (binit mb tab (fs_init (Conc mb)))) by (apply BInv_init; exact Hmb).
   assert (HB : BInv mb st) by (apply (bg_history_invariant mb Hmb tab es); exact HB0).
   assert (HE : EntsOK (Conc mb) (fsys mb st)) by (apply (bg_history_EntsOK mb Hmb tab _ es); apply EntsOK_init).
